@@ -1,11 +1,17 @@
+import Litep2pVerif.Generated.Consts
 /-!
 Notification data path (src/protocol/notification/connection.rs, handle.rs): the bounded sync/async queues
 of a `NotificationSink`, the `Connection` task's poll loop, the substreams as FIFO byte pipes, the shared
 inbound channel with the slot reserved before reading, the handle's `peers` filter and the clogged flag.
 
 Which of the two non-empty queues the task takes next (`tokio::select!` without `biased`) is not fixed:
-the model only moves whole queues into per-mode FIFO buffers (`sBuf`, `aBuf`) and lets the reader take
-either head, so every interleaving is covered.
+`taskPoll` takes the choices as an argument (`picks`, consumed only when both queues are non-empty), the
+notifications handed to the substream are kept in per-mode FIFO buffers (`sBuf`, `aBuf`) and the reader
+may take either head, so every interleaving is covered.
+
+Back-pressure (src/substream/mod.rs, `Sink::poll_ready`): once `pending_out_bytes >= BACKPRESSURE_BOUNDARY`
+the substream accepts a further notification only after a complete flush; until then the task keeps the
+ONE notification it has already taken from a queue in `next_notification` (`parked`) and takes no other.
 -/
 namespace Litep2pVerif.Chan
 
@@ -25,7 +31,8 @@ structure Cfg where
   notifCap : Nat
   pipeCap : Nat
   maxSize : Nat
-  deriving Repr
+  boundary : Nat := Consts.BACKPRESSURE_BOUNDARY   -- `BACKPRESSURE_BOUNDARY` of the substream's sink
+  deriving DecidableEq, Repr
 
 inductive SendRes | ok | clogged | noconn | nopeer | waiting
   deriving DecidableEq, Repr
@@ -34,13 +41,16 @@ structure Chan where
   cfg : Cfg
   alive : Bool := false           -- the connection task exists (receivers of the queues alive)
   viewHas : Bool := false         -- `handle.peers` contains the peer
+  gen : Nat := 0                  -- number of the current stream (each `reopen` makes new queues)
+  viewGen : Nat := 0              -- the stream whose sink `handle.peers` holds
   clogged : Bool := false
   syncQ : List Msg := []
   asyncQ : List Msg := []
   waiting : List Msg := []        -- async sends waiting for capacity (FIFO semaphore)
   sBuf : List Msg := []           -- taken by the task, not yet read completely by the remote
   aBuf : List Msg := []
-  sinkBytes : Nat := 0            -- in the substream's write buffer
+  parked : Option (Bool × Msg) := none   -- `next_notification` (taken from the sync queue?, notification)
+  sinkBytes : Nat := 0            -- in the substream's write buffer (`pending_out_bytes`)
   pipeFill : Nat := 0             -- in the pipe
   carry : Nat := 0                -- bytes of a partially read frame at the remote
   inQ : List Msg := []            -- written by the remote, not yet read by the task
@@ -55,19 +65,19 @@ structure Chan where
   delA : List Msg := []
   inRead : List Msg := []         -- moved from the inbound substream into the shared channel
   userGot : List Msg := []        -- yielded to the user
-  deriving Repr
+  deriving DecidableEq, Repr
 
 /-- `send_sync_notification`: one non-blocking step. Second component: a `ForceClose` command was sent. -/
 def syncSend (c : Chan) (m : Msg) : Chan × SendRes × Bool :=
   if !c.viewHas then (c, .ok, false)
-  else if !c.alive then (c, .noconn, false)
+  else if !c.alive || c.viewGen != c.gen then (c, .noconn, false)     -- the sink's queue is closed
   else if c.syncQ.length ≥ c.cfg.syncCap then ({ c with clogged := true }, .clogged, !c.clogged)
   else ({ c with syncQ := c.syncQ ++ [m], accS := c.accS ++ [m] }, .ok, false)
 
 /-- `send_async_notification`, first poll. -/
 def asyncSend (c : Chan) (m : Msg) : Chan × SendRes :=
   if !c.viewHas then (c, .nopeer)
-  else if !c.alive then (c, .noconn)
+  else if !c.alive || c.viewGen != c.gen then (c, .noconn)
   else if c.waiting.isEmpty && c.asyncQ.length < c.cfg.asyncCap then
     ({ c with asyncQ := c.asyncQ ++ [m], accA := c.accA ++ [m] }, .ok)
   else ({ c with waiting := c.waiting ++ [m] }, .waiting)
@@ -84,42 +94,88 @@ def letIn (c : Chan) : Nat → Chan × List Msg
         (c', m :: done)
       else (c, [])
 
-/-- `close_connection`: the queues' receivers are dropped; `notify` = the protocol gets a notice. -/
+/-- `close_connection`: the task (queue receivers, parked notification) is dropped; `notify` = the protocol gets a notice. -/
 def closeTask (c : Chan) : Chan :=
-  { c with alive := false, syncQ := [], asyncQ := [], evQ := c.evQ ++ ["closed"] }
+  { c with alive := false, syncQ := [], asyncQ := [], parked := none, evQ := c.evQ ++ ["closed"] }
 
+/-- `Sink::poll_flush`: write as much of the pending bytes as the pipe takes; complete iff nothing is left. -/
 def flush (c : Chan) : Chan :=
   let mv := min c.sinkBytes (c.cfg.pipeCap - c.pipeFill)
   { c with sinkBytes := c.sinkBytes - mv, pipeFill := c.pipeFill + mv }
 
-/-- Inbound half of `poll_next`, repeated by the `start()` loop: reserve a slot on the shared channel
-BEFORE reading, read one frame, deliver. Result flag: the connection must close. -/
-def readInbound (c : Chan) : Nat → Chan × Bool
-  | 0 => (c, false)
-  | fuel + 1 =>
-    if c.notifQ.length ≥ c.cfg.notifCap then (c, false)
-    else match c.inQ with
-      | [] => (c, c.inClosed)
-      | m :: rest =>
-        if max m.size 3 > c.cfg.maxSize then ({ c with inQ := rest }, true)
-        else readInbound { c with inQ := rest, notifQ := c.notifQ ++ [m], inRead := c.inRead ++ [m] } fuel
+/-- Inbound half of one `poll_next`: reserve a slot on the shared channel BEFORE reading, read one frame.
+Result: `none` = pending, `some true` = the connection must close, `some false` = one notification delivered
+(the `start()` loop then calls `poll_next` again). -/
+def readOne (c : Chan) : Chan × Option Bool :=
+  if c.notifQ.length ≥ c.cfg.notifCap then (c, none)
+  else match c.inQ with
+    | [] => (c, if c.inClosed then some true else none)
+    | m :: rest =>
+      if max m.size 3 > c.cfg.maxSize then ({ c with inQ := rest }, some true)
+      else ({ c with inQ := rest, notifQ := c.notifQ ++ [m], inRead := c.inRead ++ [m] }, some false)
 
-/-- One poll of the connection task. Result: `some notify` if the task ended. -/
-def taskPoll (c : Chan) : Chan × Option Bool :=
+/-- The notification the outbound loop handles next: the parked one, else the head of a non-empty queue —
+if both are non-empty the next element of `picks` decides (`0` = sync; no element left = sync). -/
+def nextNotif (c : Chan) (picks : List Nat) : Option ((Bool × Msg) × Chan × List Nat) :=
+  match c.parked with
+  | some p => some (p, { c with parked := none }, picks)
+  | none =>
+    match c.syncQ, c.asyncQ with
+    | [], [] => none
+    | m :: r, [] => some ((true, m), { c with syncQ := r }, picks)
+    | [], m :: r => some ((false, m), { c with asyncQ := r }, picks)
+    | ms :: rs, ma :: ra =>
+      if picks.headD 0 = 0 then some ((true, ms), { c with syncQ := rs }, picks.tail)
+      else some ((false, ma), { c with asyncQ := ra }, picks.tail)
+
+/-- `Sink::poll_ready`: below the boundary the substream is ready at once; at or above it only after a
+complete flush. -/
+def pollReady (c : Chan) : Chan × Bool :=
+  if c.sinkBytes ≥ c.cfg.boundary then ((flush c), (flush c).sinkBytes = 0) else (c, true)
+
+/-- `start_send` of an admissible notification: it joins the bytes pending in the substream. -/
+def pushOut (c : Chan) (p : Bool × Msg) : Chan :=
+  if p.1 then { c with sBuf := c.sBuf ++ [p.2], sinkBytes := c.sinkBytes + p.2.bytes }
+  else { c with aBuf := c.aBuf ++ [p.2], sinkBytes := c.sinkBytes + p.2.bytes }
+
+/-- The outbound loop of `poll_next`. Result: the connection closed (`start_send` refused an oversized
+notification; whatever this poll handed to the substream before is never flushed), and the unused choices. -/
+def outLoop (c : Chan) (picks : List Nat) : Nat → Chan × Bool × List Nat
+  | 0 => (c, false, picks)
+  | fuel + 1 =>
+    match nextNotif c picks with
+    | none => (c, false, picks)
+    | some (p, c1, picks1) =>
+      if (pollReady c1).2 then
+        if max p.2.size 3 > c.cfg.maxSize then (closeTask (pollReady c1).1, true, picks1)
+        else outLoop (pushOut (pollReady c1).1 p) picks1 fuel
+      else ({ (pollReady c1).1 with parked := some p }, false, picks1)
+
+/-- `poll_next`: the outbound loop, a flush (a pending flush does not stop the poll), the inbound half. -/
+def pollNext (c : Chan) (picks : List Nat) : Chan × Option Bool × List Nat :=
+  if (outLoop c picks (c.syncQ.length + c.asyncQ.length + 1)).2.1 then
+    ((outLoop c picks (c.syncQ.length + c.asyncQ.length + 1)).1, some true,
+      (outLoop c picks (c.syncQ.length + c.asyncQ.length + 1)).2.2)
+  else
+    ((readOne (flush (outLoop c picks (c.syncQ.length + c.asyncQ.length + 1)).1)).1,
+     (readOne (flush (outLoop c picks (c.syncQ.length + c.asyncQ.length + 1)).1)).2,
+     (outLoop c picks (c.syncQ.length + c.asyncQ.length + 1)).2.2)
+
+/-- The `start()` loop within one poll of the task: `poll_next` again after every delivered notification — the
+whole of it, so a parked notification is retried each time. -/
+def taskLoop (c : Chan) (picks : List Nat) : Nat → Chan × Option Bool
+  | 0 => (c, none)
+  | fuel + 1 =>
+    match (pollNext c picks).2.1 with
+    | none => ((pollNext c picks).1, none)
+    | some true => (if (pollNext c picks).1.alive then closeTask (pollNext c picks).1 else (pollNext c picks).1, some true)
+    | some false => taskLoop (pollNext c picks).1 (pollNext c picks).2.2 fuel
+
+/-- One poll of the connection task; `picks` = the choices of `select!`. Result: `some notify` if the task ended. -/
+def taskPoll (c : Chan) (picks : List Nat) : Chan × Option Bool :=
   if !c.alive then (c, none)
   else if c.signalled then (closeTask c, some false)
-  else
-    let batch := c.syncQ ++ c.asyncQ
-    if batch.any (fun m => max m.size 3 > c.cfg.maxSize) then
-      -- `start_send` rejects the oversized notification: the connection closes, nothing of this batch is flushed
-      (closeTask c, some true)
-    else
-      let c := { c with sBuf := c.sBuf ++ c.syncQ, aBuf := c.aBuf ++ c.asyncQ,
-                        sinkBytes := c.sinkBytes + (batch.map Msg.bytes).foldl (· + ·) 0,
-                        syncQ := [], asyncQ := [] }
-      let c := flush c
-      let (c, close) := readInbound c 4096
-      if close then (closeTask c, some true) else (c, none)
+  else taskLoop c picks 4096
 
 def partialOk (c : Chan) (avail : Nat) : Bool :=
   avail = 0 || (match c.sBuf with | m :: _ => avail < m.bytes | [] => false) ||
@@ -154,12 +210,14 @@ def pollHandle (c : Chan) : Chan × List String :=
   let view := c.evQ.foldl (fun v e => if e = "opened" then true else if e = "closed" then false else v) c.viewHas
   let clogged := if c.evQ.contains "closed" then false else c.clogged
   let got := if view then c.notifQ else []
-  ({ c with viewHas := view, clogged := clogged, evQ := [], notifQ := [], userGot := c.userGot ++ got },
+  ({ c with viewHas := view, viewGen := if c.evQ.contains "opened" then c.gen else c.viewGen,
+            clogged := clogged, evQ := [], notifQ := [], userGot := c.userGot ++ got },
     c.evQ ++ got.map fun m => s!"r{m.seq}")
 
 /-- A new stream (new queues, new pipes) after the previous task ended. -/
 def reopen (c : Chan) : Chan :=
-  { cfg := c.cfg, alive := true, viewHas := c.viewHas, clogged := c.clogged, waiting := c.waiting,
+  { cfg := c.cfg, alive := true, viewHas := c.viewHas, gen := c.gen + 1, viewGen := c.viewGen, clogged := c.clogged,
+    waiting := c.waiting,
     notifQ := c.notifQ, evQ := c.evQ ++ ["opened"], userGot := [] }
 
 end Litep2pVerif.Chan
